@@ -63,18 +63,21 @@ where
     /// Add new constraint `c` while keeping the store normalized
     pub fn push_and_normalize(&mut self, newc: Rc<dyn Constraint<U, E>>) {
         if let Some(tree_newc) = newc.downcast_ref::<DisequalityConstraint<U, E>>() {
-            let mut normalized = HashSet::new();
-            for storec in self.0.drain() {
-                // All non-subsumable constraints are always carried along
-                if let Some(tree_storec) = storec.downcast_ref::<DisequalityConstraint<U, E>>() {
-                    if !tree_storec.subsumes(tree_newc) && !tree_newc.subsumes(tree_storec) {
-                        normalized.insert(storec);
-                    }
-                } else {
-                    normalized.insert(storec);
-                }
+            // The new constraint is redundant if a stored constraint already subsumes it.
+            if self.0.iter().any(|storec| {
+                storec
+                    .downcast_ref::<DisequalityConstraint<U, E>>()
+                    .map_or(false, |tree_storec| tree_storec.subsumes(tree_newc))
+            }) {
+                return;
             }
-            self.0 = normalized;
+            // Stored constraints that the new constraint subsumes are redundant.
+            self.0.retain(|storec| {
+                match storec.downcast_ref::<DisequalityConstraint<U, E>>() {
+                    Some(tree_storec) => !tree_newc.subsumes(tree_storec),
+                    None => true,
+                }
+            });
         }
         self.insert(newc);
     }
